@@ -474,17 +474,23 @@ def cross_package_map(ctx, rule):
         for p in ps:
             if p.raised:
                 continue
-            same = None
-            for t, taken in p.conds:
-                if not isinstance(t, str) and src(t) in ('self.chemicals is %s.chemicals' % o_, '%s.chemicals is self.chemicals' % o_):
-                    same = taken
+            from ..pathcond import implied2 as _imp2, resolved_conds as _rcs
+            CH = {'self.chemicals', 'self._chemicals', '%s.chemicals' % o_, '%s._chemicals' % o_}
+
+            def _pk(t, ops):
+                return isinstance(t, ast.Compare) and len(t.ops) == 1 and isinstance(t.ops[0], ops) and {src(t.left), src(t.comparators[0])} <= CH \
+                    and src(t.left).split('.')[0] != src(t.comparators[0]).split('.')[0]
+            same = _imp2(_rcs(p, keep=set(f.params)), lambda t: _pk(t, ast.Is), lambda t: _pk(t, ast.IsNot))
             if same is not False:
                 continue
-            pair = None
+            pair = None      # texts of the (left, right) index of the overlap: two locals, or N[0] / N[1] of the local the pair is kept in
             for e in p.events:
-                if e.kind == 'assign' and isinstance(e.stmt, ast.Assign) and isinstance(e.stmt.value, ast.Call) and src(e.stmt.value.func) == 'index_overlap' \
-                        and isinstance(e.stmt.targets[0], ast.Tuple) and len(e.stmt.targets[0].elts) == 2:
-                    pair = tuple(x.id for x in e.stmt.targets[0].elts)
+                if e.kind == 'assign' and isinstance(e.stmt, ast.Assign) and isinstance(e.stmt.value, ast.Call) and src(e.stmt.value.func) == 'index_overlap':
+                    t0 = e.stmt.targets[0]
+                    if isinstance(t0, ast.Tuple) and len(t0.elts) == 2 and all(isinstance(x, ast.Name) for x in t0.elts):
+                        pair = tuple(x.id for x in t0.elts)
+                    elif isinstance(t0, ast.Name):
+                        pair = ('%s[0]' % t0.id, '%s[1]' % t0.id)
             for e in p.events:
                 if e.kind not in ('store', 'augstore') or not isinstance(e.node, ast.Subscript):
                     continue
@@ -497,8 +503,11 @@ def cross_package_map(ctx, rule):
                 key = (e.stmt.lineno,)
                 tsl = src(e.node.slice)
                 vsl = [src(x.slice) for x in ast.walk(v) if isinstance(x, ast.Subscript)]
-                good = pair is not None and pair[0] in tsl.replace('(', ' ').replace(')', ' ').replace(',', ' ').split() \
-                    and any(pair[1] in y.replace('(', ' ').replace(')', ' ').replace(',', ' ').split() for y in vsl)
+                def _has(txt, name):
+                    if '[' in name:
+                        return name in txt
+                    return name in txt.replace('(', ' ').replace(')', ' ').replace(',', ' ').split()
+                good = pair is not None and _has(tsl, pair[0]) and any(_has(y, pair[1]) for y in vsl)
                 seen.setdefault(key, []).append((good, e))
         if not seen:
             raise AnalysisError('%s.copy_like: no cross-package transfer found' % cname)
